@@ -87,6 +87,8 @@ EMPTY_CONSTS = ['', '', ' ', '  ']           # the empty constant `` and constan
 # single-backtick constants that literal_eval turns into NON-FINITE floats (repr() is the bare name inf):
 # pretty() prints them `inf`, a word -> for C13 they fall under the recorded 'const-renormalised' mechanism
 NONFINITE_CONSTS = ['1e999', '-1e999']
+# constants whose VALUE is None or falsy: repr()/JSON/field defaults must not confuse them with "not given"
+FALSY_CONSTS = {'None': None, 'False': False, '0': 0, '0.0': 0.0}
 NONFINITE_PARAMS = [float('inf'), float('-inf')]
 NUMERIC_FIRST_PARAMS = [1, 7, 0, 2.5, 42]
 ALERTS = ['msg', 'something odd', 'x{1+1}', 'a b']
@@ -419,6 +421,8 @@ def build_model(g: L.Grammar, name=None):
         if T is L.Const:
             if e.text in NONFINITE_CONSTS:
                 return peg.Constant(literal=float(e.text))     # what the text route stores
+            if e.text in FALSY_CONSTS:
+                return peg.Constant(literal=FALSY_CONSTS[e.text])     # what the text route stores
             return peg.Constant(literal=e.text)
         if T is L.Alert:
             return peg.Alert(literal=e.text, level=e.level)
@@ -612,6 +616,12 @@ def gen_case(rng: random.Random, profile: Profile | None = None):
         add_to_seq(rng.choice(g.rules), c, 'any')
     if profile.nonfinite_rate and rng.random() < profile.nonfinite_rate:
         add_to_seq(rng.choice(g.rules), L.Const(rng.choice(NONFINITE_CONSTS)), 'any')
+    if rng.random() < 0.08:
+        # constants whose value is None / False / 0 / 0.0 (each route must keep them apart from "no literal")
+        c = L.Const(rng.choice(sorted(FALSY_CONSTS)))
+        if rng.random() < 0.5:
+            c = L.Named(rng.choice(['n', 'm', 'e']), c)
+        add_to_seq(rng.choice(g.rules), c, 'any')
 
     # ---- fragment rules first (include / base targets must be defined earlier and call nothing)
     frags = []
@@ -772,6 +782,8 @@ def gen_case(rng: random.Random, profile: Profile | None = None):
                 feats.add('assoc_join:' + x.assoc)
             elif isinstance(x, L.Const) and x.text.strip(' ') == '':
                 feats.add('empty_constant')
+            elif isinstance(x, L.Const) and x.text in FALSY_CONSTS:
+                feats.add('falsy_constant')
             elif isinstance(x, L.Const) and x.text in NONFINITE_CONSTS:
                 feats.add('nonfinite_float')
                 feats.add('nonfinite_float:constant')
